@@ -229,9 +229,10 @@ fn validate_command_part(command: &str) -> Result<(), CommandErrorKind> {
 
 /// Validate an argument.
 fn validate_argument(argument: &[u8]) -> Result<(), CommandErrorKind> {
-    match argument.iter().position(|&c| c == b'\n') {
+    // Line feeds would start a new command, NUL bytes terminate the line on the server
+    match argument.iter().position(|&c| c == b'\n' || c == b'\0') {
         None => Ok(()),
-        Some(i) => Err(CommandErrorKind::InvalidCharacter(i, '\n')),
+        Some(i) => Err(CommandErrorKind::InvalidCharacter(i, char::from(argument[i]))),
     }
 }
 
